@@ -760,12 +760,20 @@ class _ConnectionRecord(ConnectionPoolEntry):
         self.fairy_ref = None
         connection = self.dbapi_connection
         pool = self.__pool
-        while self.finalize_callback:
-            finalizer = self.finalize_callback.pop()
-            if connection is not None:
-                finalizer(connection)
-        if pool.dispatch.checkin:
-            pool.dispatch.checkin(connection, self)
+        try:
+            while self.finalize_callback:
+                finalizer = self.finalize_callback.pop()
+                if connection is not None:
+                    finalizer(connection)
+            if pool.dispatch.checkin:
+                pool.dispatch.checkin(connection, self)
+        except BaseException as err:
+            # the connection may not be completely reset: don't pool it,
+            # but give the pool its slot back
+            self.finalize_callback.clear()
+            self.invalidate(e=err)
+            pool._return_conn(self)
+            raise
 
         pool._return_conn(self)
 
